@@ -153,10 +153,12 @@ example : valOKj benv0 subCtx .dict 2 "Ch2".toList
 def DictRoundTrip (e : BEnv) (Γ : Ctx) (fac : Factory) (n : Nat) (c : ClassId) (v : Val) : Prop :=
   ∃ j, encode Γ fac {} n v = .ok j ∧ decode e Γ {} n (.cls c) j = ND.pure v
 
-/-- full strength: every instance the encoder accepts comes back, for every class universe -/
+/-- full strength: every instance the encoder accepts comes back when decoded into ITS OWN class, for every
+class universe (the target class is the instance's class: decoding into an unrelated class is no round trip, and a
+statement that quantified the class freely would be refuted without any defect) -/
 def dict_rt_full : Prop :=
   ∀ (e : BEnv) (Γ : Ctx) (fac : Factory) (n : Nat) (c : ClassId) (v : Val) (j : J),
-    encode Γ fac {} n v = .ok j → decode e Γ {} n (.cls c) j = ND.pure v
+    (∃ fs, v = .obj c fs) → encode Γ fac {} n v = .ok j → decode e Γ {} n (.cls c) j = ND.pure v
 
 /-- C04-subclass-ambiguity: `P(c=Ch(v=1))` → `{"c": {"v": 1}}` → the admissible results are
 `P(c=Ch2(v=1, w=None))` and `P(c=Ch(v=1))`: which one depends on the iteration order of
@@ -168,7 +170,7 @@ theorem subclass_winners :
 
 theorem dict_rt_full_false_subclass : ¬ dict_rt_full := by
   intro h
-  have h1 := h benv0 subCtx .dict 3 "P".toList sub_value _ subclass_winners.1
+  have h1 := h benv0 subCtx .dict 3 "P".toList sub_value _ ⟨_, rfl⟩ subclass_winners.1
   rw [subclass_winners.2] at h1
   have : (ND.choose [sub_other, sub_value]).run.toOption.map List.length = (ND.pure sub_value).run.toOption.map List.length := by
     rw [h1]
